@@ -795,6 +795,12 @@ func (t *tr) binop(x *ssa.BinOp, R string) {
 		e := fmt.Sprintf("(%s %s %s)", op, a, b)
 		if x.Op == token.MUL {
 			t.define(x, "Int", wrapMod(e, x.Type()))
+		} else if x.Op == token.ADD && t.own != nil && t.own.NoWrap && isUnsigned(x.Type()) {
+			// stated assumption of this function's contract: the counter does not wrap around
+			n := t.define(x, "Int", e)
+			_, hi, _ := intRange(x.Type())
+			t.assume(R, fmt.Sprintf("(<= %s %s)", n, hi))
+			t.abstractf("ASSUMED: unsigned addition does not wrap (assume nowrap)")
 		} else {
 			t.define(x, "Int", wrapAddSub(e, x.Type()))
 		}
@@ -1156,7 +1162,7 @@ func (t *tr) ret(x *ssa.Return, b *ssa.BasicBlock, R string, heaps map[string]st
 	env := t.ownEnv(res)
 	idx := len(t.returns)
 	for _, e := range t.own.Ensures {
-		term, err := t.evalBool(e.Expr, env, heaps, t.oldHeaps)
+		term, err := t.evalGoal(e.Expr, env, heaps, t.oldHeaps)
 		if err != nil {
 			t.fatalf("ensures %s (%s): %v", e.Label, e.Where, err)
 			continue
@@ -1186,7 +1192,7 @@ func (t *tr) ret(x *ssa.Return, b *ssa.BasicBlock, R string, heaps map[string]st
 		}
 		renv.letEnv = renv
 		for _, e := range ifs.Ensures {
-			term, err := t.evalBool(e.Expr, renv, heaps, t.oldHeaps)
+			term, err := t.evalGoal(e.Expr, renv, heaps, t.oldHeaps)
 			if err != nil {
 				t.fatalf("refines %s ensures %s: %v", key, e.Label, err)
 				continue
